@@ -49,7 +49,11 @@ class FileWorld(object):
         self.stream = None
         self.max_bytes = case['max_bytes']
         self.backups = case['backup_count']
-        self.tf = TIME_FORMAT if case.get('time_format') else None
+        tf = case.get('time_format')
+        # True: the usual date format; a string: that format (the empty
+        # string is one: pid column without a date)
+        self.tf = TIME_FORMAT if tf is True else \
+            tf if isinstance(tf, str) else None
         fw = self
 
         class _Clock(object):
@@ -80,7 +84,7 @@ class FileWorld(object):
         FS = self.fs_mod.FileStream
         kw = {'filename': self.path, 'max_bytes': self.max_bytes,
               'backup_count': self.backups}
-        if self.tf:
+        if self.tf is not None:
             kw['time_format'] = self.tf
         s = FS(**kw)
         s.now = self.clock.now
@@ -146,7 +150,7 @@ class FileWorld(object):
                    'after %s: backups (oldest first) + active file are not a '
                    'suffix of what was written; retained %r... logical ...%r'
                    % (what, retained[:60], self.logical[-80:]),
-                   time_format=bool(self.tf))
+                   time_format=self.tf is not None)
         elif self.last_write and not retained.endswith(self.last_write):
             self.v('last_write_lost', 'after %s: the last write %r is not '
                    'retained' % (what, self.last_write[:60]))
@@ -156,15 +160,18 @@ class FileWorld(object):
                 self.v('active_file_reached_max_bytes',
                        'after %s: active file has %d bytes, max_bytes=%d, '
                        'every write since the rollover was smaller'
-                       % (what, size, mb), time_format=bool(self.tf))
+                       % (what, size, mb), time_format=self.tf is not None)
         if mb == 0:
             if files.get(0, '') != self.logical or nums:
                 self.v('not_an_append_only_copy', 'after %s: file differs '
                        'from what was written (rotation off)' % what)
-        if self.tf and self.rollovers >= 0:
+        if self.tf is not None and self.rollovers >= 0:
             pre_len = sum(len(v) for v in (self.case.get('pre') or {}).values())
             if pre_len == 0:
-                pat = re.compile(r'^\d{4}-\d\d-\d\d \d\d:\d\d:\d\d \[\d+\] \| ')
+                pat = re.compile({
+                    TIME_FORMAT: r'^\d{4}-\d\d-\d\d \d\d:\d\d:\d\d',
+                    '': r'^', '%H:%M': r'^\d\d:\d\d',
+                    'T%H%M%S': r'^T\d{6}'}[self.tf] + r' \[\d+\] \| ')
                 for n in nums + [0]:
                     for line in files.get(n, '').split('\n'):
                         if line and not pat.match(line):
@@ -229,7 +236,8 @@ class C20(Prop):
     id = 'C20'
     level = 'exploration'
     rule = ('one case = (max_bytes, backup_count 1-5, in 15 % 9-101 with '
-            'every write rolling, time_format on/off, '
+            'every write rolling, time_format off / the usual one / other '
+            'formats incl. the empty string, '
             'pre-existing active file and backups with gaps) + a sequence of '
             'writes (valid UTF-8 chunks of 1..max_bytes-1 bytes, a few >= '
             'max_bytes, with and without newlines, some multi-byte), close, '
@@ -264,6 +272,8 @@ class C20(Prop):
             bc = rng.choice([9, 10, 11, 12, 13, 15, 21, 101])
             mb = rng.choice([2, 3, 5, 8, 16])
         tf = rng.random() < 0.35
+        if tf and rng.random() < 0.3:
+            tf = rng.choice(['', '', '%H:%M', 'T%H%M%S'])
         pre = {}
         if rng.random() < 0.4:
             cnt = [0]
@@ -348,7 +358,7 @@ class C20(Prop):
                     'close_reopen': sum(1 for o in case['ops']
                                         if o[0] == 'close')},
                 'probes': {'writes': nops,
-                           'with_time_format': 1 if fw.tf else 0,
+                           'with_time_format': 1 if fw.tf is not None else 0,
                            'with_preexisting_files': 1 if case.get('pre')
                            else 0},
                 'ops': {'write': nops}, 'sig': sig,
@@ -366,7 +376,7 @@ class C20(Prop):
             c = dict(case)
             c['pre'] = {}
             yield c
-        if case.get('time_format'):
+        if case.get('time_format') not in (None, False):
             c = dict(case)
             c['time_format'] = False
             yield c
